@@ -78,12 +78,13 @@ def tlc_stats(out):
     return int(m.group(1)), int(m.group(2))
 
 
-def run_generator(model, workdir, timeout=1800, workers=8):
+def run_generator(model, workdir, timeout=1800, workers=8, cfg=None):
     """TLC enumerates a bounded model; returns (edges_path, stats)."""
     stage_spec(workdir)
-    shutil.copyfile(os.path.join(MODELS, model + ".cfg"), os.path.join(workdir, model + ".cfg"))
+    cfg = cfg or model
+    shutil.copyfile(os.path.join(MODELS, cfg + ".cfg"), os.path.join(workdir, cfg + ".cfg"))
     t0 = time.time()
-    rc, out = tlc(workdir, model, model + ".cfg", workers=workers, timeout=timeout, xmx="8g")
+    rc, out = tlc(workdir, model, cfg + ".cfg", workers=workers, timeout=timeout, xmx="8g")
     if "Model checking completed. No error has been found." not in out:
         tail = "\n".join(l for l in out.splitlines() if not l.startswith('"{'))[-4000:]
         raise Inconclusive("generator %s did not complete cleanly (specification-level error):\n%s" % (model, tail))
@@ -111,7 +112,7 @@ def run_generator(model, workdir, timeout=1800, workers=8):
             shutil.copyfileobj(body, f)
     os.remove(edges_path + ".body")
     gen, distinct = tlc_stats(out)
-    return edges_path, dict(model=model, states=distinct, transitions=gen, edges=n, menu=len(header["menu"]),
+    return edges_path, dict(model=cfg, states=distinct, transitions=gen, edges=n, menu=len(header["menu"]),
                             gen_wall_s=round(time.time() - t0, 1)), header
 
 
